@@ -290,6 +290,50 @@ func ruleSubjectDelivers() check.Rule {
 							c.Violation(okey, fd.Pos(), "the removal teardown is registered before the subscriber is stored: for a subscriber that is already closed the removal runs first and the subscriber then stays in the observer set for ever")
 						}
 					}
+					// a single-consumer subject (one `observer` field) hands its backlog over once: after the loop that replays
+					// the queue field, the field is replaced on every path
+					if st, ok := p.Types.Scope().Lookup(tname).Type().Underlying().(*types.Struct); ok {
+						single, hasValues := false, false
+						for i := 0; i < st.NumFields(); i++ {
+							switch st.Field(i).Name() {
+							case "observer":
+								single = true
+							case "values":
+								hasValues = true
+							}
+						}
+						if single && hasValues {
+							var loop *ast.RangeStmt
+							ast.Inspect(fd.Body, func(x ast.Node) bool {
+								if r, ok := x.(*ast.RangeStmt); ok {
+									if fs := fieldSelOf(info, r.X, rvS); fs != nil && fs.Sel.Name == "values" {
+										loop = r
+									}
+								}
+								return true
+							})
+							bkey := fmt.Sprintf("ro.%s.SubscribeWithContext/backlog-consumed", tname)
+							if loop != nil {
+								resets := pathsPassAfter(fd.Body, loop.X, func(nd ast.Node) bool {
+									as, ok := nd.(*ast.AssignStmt)
+									if !ok {
+										return false
+									}
+									for _, l := range as.Lhs {
+										if fs := fieldSelOf(info, l, rvS); fs != nil && fs.Sel.Name == "values" {
+											return true
+										}
+									}
+									return false
+								})
+								if resets {
+									c.OK(bkey, loop.Pos(), "the backlog is emptied after it has been replayed to the single subscriber")
+								} else {
+									c.Violation(bkey, loop.Pos(), "the backlog is replayed to the subscriber but the queue is not emptied afterwards: the next subscriber receives the values its predecessor already consumed")
+								}
+							}
+						}
+					}
 					rkey := fmt.Sprintf("ro.%s.SubscribeWithContext/registers", tname)
 					if registers {
 						c.OK(rkey, fd.Pos(), "the new subscriber is stored in the observer set")
